@@ -554,8 +554,11 @@ func genParamUpdate(t *rapid.T, cur tmproto.ConsensusParams, label string, minBy
 	if rapid.IntRange(0, 3).Draw(t, label+".pver") == 0 {
 		u.Version = &tmproto.VersionParams{AppVersion: rapid.SampledFrom([]uint64{0, 1, 2, 5, 1 << 63, 1<<64 - 1}).Draw(t, label+".pappver")}
 	}
-	if rapid.IntRange(0, 5).Draw(t, label+".pval") == 0 {
-		u.Validator = &tmproto.ValidatorParams{PubKeyTypes: []string{"ed25519", "secp256k1"}}
+	if rapid.IntRange(0, 2).Draw(t, label+".pval") == 0 {
+		// any list that keeps the validators' own key type; longer, shorter, reordered, repeated entries
+		u.Validator = &tmproto.ValidatorParams{PubKeyTypes: append([]string(nil), rapid.SampledFrom([][]string{
+			{"ed25519", "secp256k1"}, {"secp256k1", "ed25519"}, {"ed25519"}, {"secp256k1", "ed25519", "ed25519"}, {"ed25519", "ed25519"},
+		}).Draw(t, label+".ptypes")...)}
 	}
 	return u
 }
@@ -714,8 +717,13 @@ func (b *built) advance(p *lib.HeightPlan) error {
 	h := b.c.NextHeight()
 	b.plans[h] = p
 	pre := b.c.State
+	preBytes := pre.Bytes()
 	if err := b.c.Advance(p); err != nil {
 		return fmt.Errorf("height %d: %w", h, err)
+	}
+	// the transition is a function: its input state is not modified
+	if !bytes.Equal(preBytes, pre.Bytes()) {
+		return fmt.Errorf("height %d: ApplyBlock modified the state it was applied to (a second use of that state sees other values)", h)
 	}
 	for _, e := range p.Evidence {
 		b.evSeen[string(e.Hash())] = true
